@@ -32,7 +32,13 @@ Step(e) ==
               /\ Check(e.iter_ok, "iteration_yields_start_and_end_or_none")
     [] e.op = "ym" ->
          \* the month's interval is [first day of the month, first day + days in month - 1] in the calendar's own terms
-         Check(e.s = e.first /\ e.e = e.first + e.dim - 1, "year_month_interval_is_the_whole_month")
+         /\ Check(e.s = e.first /\ e.e = e.first + e.dim - 1, "year_month_interval_is_the_whole_month")
+         \* ... which is what the calendar's arithmetic (Calendars.tla) says the month is, where it is modelled
+         /\ (e.cal \in ArithmeticIds /\ ~(e.cal = "Persian Arithmetic" /\ e.y < 476) /\ e.y >= MinYear(e.cal) /\ e.y <= MaxYear(e.cal) =>
+               Check(e.s = DayOf(e.cal, e.y, e.m, 1) /\ e.e = DayOf(e.cal, e.y, e.m, 1) + DaysInMonth(e.cal, e.y, e.m) - 1,
+                     "year_month_interval_is_the_whole_month"))
+         \* consecutive months tile the days: the next month's interval starts the day after this one ends (their union is defined)
+         /\ (Has(e, "next_s") => Check(e.next_s = e.e + 1 /\ e.union_defined, "consecutive_months_are_adjacent_sets"))
 
 Init == l = 1
 Next == l <= Len(Events) /\ l' = l + 1 /\ Step(Events[l])
